@@ -554,7 +554,7 @@ pub fn c05(ctx: &mut Ctx, w: &Work) {
             delta_kind,
             overlap_delta,
         });
-    ctx.check("replicas-random", w.random_cases * 3, strat, body);
+    ctx.check("replicas-random", (w.random_cases / 4).max(300), strat, body);
 }
 
 // ------------------------------------------------------------------ changed-flag for all backends (C02)
